@@ -609,6 +609,12 @@ func rowCountRule(c *Ctx, rule string) {
 		name := safeFname(anchor)
 		ok := false
 		why := "no 32-bit encoding of the writer's row counter is stored under the row-counter key"
+		// the writer's counter field: by shape (the integer field AddRow increments, rules_ag10.go), not by its name
+		ctr := c.a.rowsFieldOf(namedOf(anchor.Signature.Recv().Type()))
+		if ctr == nil {
+			c.r.undecided(rule, name, "the writer's row counter field was not found"+c.a.SH.whyText(), c.w.pos(anchor.Pos()))
+			continue
+		}
 		scope := c.scope(anchor, 2)
 		// callerArgs: v, a value of fn's frame; if it is (a conversion of) a parameter of a helper fn, the arguments bound
 		// to it at the helper's call sites in the scope (followed through two helper levels). A helper nobody in the scope
@@ -654,7 +660,7 @@ func rowCountRule(c *Ctx, rule string) {
 				all := true
 				for _, val := range vals {
 					f := srcField(val)
-					if f == nil || f.Name() != "nextRowID" || c.w.ownerOf(f) != namedOf(anchor.Signature.Recv().Type()) {
+					if f == nil || f != ctr {
 						all = false
 					}
 				}
